@@ -6,7 +6,9 @@ blocks, no edit of one can show in the other.
 The walk follows instance state (``vars(obj)``, ``__slots__``), elements of lists / tuples / dicts /
 sets, the memory of numpy arrays (``np.shares_memory``), and *public, non-callable class attributes
 that hold a list, set or array* (a class-level ``links = []`` is instance data kept in the wrong
-place; private class attributes and dict / tuple constants - lookup tables - are not followed).
+place) and class-level containers of any name that currently *hold* arrays or objects of library
+classes (a cache filled by earlier calls); constant lookup tables - dicts / tuples of enums, numbers,
+functions - are not followed.
 Immutable values (numbers, strings, bytes, enum members, dtypes, dates, None), classes, functions
 and modules are never reported."""
 import datetime
@@ -20,15 +22,30 @@ _IMMUTABLE = (str, bytes, int, float, complex, bool, type(None), enum.Enum, np.g
               property, staticmethod, classmethod, range, frozenset)
 
 
+def _holds_instance_data(val, depth=3):
+    """Does a container hold arrays or objects of library classes (i.e. data that belongs to some instance)?"""
+    if depth < 0 or isinstance(val, _IMMUTABLE):
+        return False
+    if isinstance(val, np.ndarray):
+        return True
+    if isinstance(val, dict):
+        return any(_holds_instance_data(v, depth - 1) or _holds_instance_data(k, depth - 1) for k, v in val.items())
+    if isinstance(val, (list, tuple, set)):
+        return any(_holds_instance_data(v, depth - 1) for v in val)
+    return type(val).__module__.split(".")[0] == "basictdf"
+
+
 def _class_level(obj):
     for klass in type(obj).__mro__:
         if klass.__module__ in ("builtins", "abc", "typing") or klass.__module__.startswith("numpy"):
             continue
         for name, val in vars(klass).items():
-            if name.startswith("_") or isinstance(val, _IMMUTABLE) or callable(val):
+            if name.startswith("__") or isinstance(val, _IMMUTABLE) or callable(val) or name == "_abc_impl":
                 continue
-            if isinstance(val, (list, set, np.ndarray)):
-                yield name, val
+            if not name.startswith("_") and isinstance(val, (list, set, np.ndarray)):
+                yield name, val          # public class-level list / set / array: instance data kept in the wrong place
+            elif isinstance(val, (list, set, dict)) and _holds_instance_data(val):
+                yield name, val          # any class-level container that currently holds arrays / library objects (a cache)
 
 
 def mutable_objects(root, max_depth=6):
